@@ -97,6 +97,47 @@ class write_raw_integer_data(Contract):
                  S.le_unit(byte_reader(c.new), c['target'], size) == low)]
 
 
+KIND_FLAGS = [CT_PRIMITIVE_SIGNED, CT_PRIMITIVE_UNSIGNED, CT_PRIMITIVE_CHAR, CT_PRIMITIVE_FLOAT, CT_POINTER,
+              CT_ARRAY, CT_STRUCT, CT_UNION, CT_FUNCTIONPTR, CT_VOID, CT_PRIMITIVE_COMPLEX]
+
+R.inline |= {'_convert_overflow', 'CDataObject_Or_PyFloat_Check'}
+
+
+def ctype_fields(c, st, ct):
+    return (c.field(st, ct, 'CTypeDescrObject', 'ct_size'), c.field(st, ct, 'CTypeDescrObject', 'ct_flags'))
+
+
+def ctype_wf(c, st, ct):
+    """type invariant of a ctype descriptor (established by the constructors, see C06/C27)"""
+    size, flags = ctype_fields(c, st, ct)
+    kinds = [flag(flags, k) for k in KIND_FLAGS]
+    one_hot = z3.And(z3.Or(*kinds), z3.And(*[z3.Not(z3.And(a, b)) for i, a in enumerate(kinds) for b in kinds[i + 1:]]))
+    sgn, uns = flag(flags, CT_PRIMITIVE_SIGNED), flag(flags, CT_PRIMITIVE_UNSIGNED)
+    isint = z3.Or(sgn, uns)
+    return z3.And(
+        c.valid(ct, 104), one_hot,
+        z3.Implies(isint, size_ok(size)),
+        z3.Implies(z3.And(isint, flag(flags, CT_PRIMITIVE_FITS_LONG)), z3.Or(sgn, size < 8)),
+        z3.Implies(flag(flags, CT_IS_BOOL), z3.And(uns, size == 1, flag(flags, CT_PRIMITIVE_FITS_LONG))))
+
+
+def is_int_ctype(c, st, ct):
+    size, flags = ctype_fields(c, st, ct)
+    return z3.Or(flag(flags, CT_PRIMITIVE_SIGNED), flag(flags, CT_PRIMITIVE_UNSIGNED))
+
+
+def int_in_range(v_wide, size, flags):
+    sgn = flag(flags, CT_PRIMITIVE_SIGNED)
+    return z3.If(flag(flags, CT_IS_BOOL), z3.Or(v_wide == S.W(0), v_wide == S.W(1)),
+                 z3.And(v_wide >= S.int_lo(size, sgn), v_wide <= S.int_hi(size, sgn)))
+
+
+def unit_of(v_wide, size):
+    """two's-complement little-endian storage unit (zero-extended to 64 bits) of v in `size` bytes"""
+    low = z3.Extract(63, 0, v_wide)
+    return z3.If(size == 8, low, low & ((BV(1, 64) << (8 * size)) - 1))
+
+
 def bitfield_pre(c, data, cf, need_data=True):
     ct = c.field(c.old, cf, 'CFieldObject', 'cf_type')
     size = c.field(c.old, ct, 'CTypeDescrObject', 'ct_size')
@@ -105,7 +146,7 @@ def bitfield_pre(c, data, cf, need_data=True):
     sh = c.field(c.old, cf, 'CFieldObject', 'cf_bitshift')
     sgn, uns = flag(flags, CT_PRIMITIVE_SIGNED), flag(flags, CT_PRIMITIVE_UNSIGNED)
     pre = [
-        ('cf-valid', c.valid(cf, 48)), ('ct-valid', c.valid(ct, 104)),
+        ('cf-valid', c.valid(cf, 48)), ('ctype-wf', ctype_wf(c, c.old, ct)),
         ('bitfield-wf', S.bitfield_wf(size, bs, sh)),
         ('integer-type', z3.Xor(sgn, uns)),
         # type invariant established by new_primitive_type (C06): FITS_LONG only if every value fits a C long
@@ -172,7 +213,7 @@ class convert_from_object_bitfield(Contract):
 
     def pre(self, c):
         pre, _ = bitfield_pre(c, c['data'], c['cf'])
-        return pre + [('init-is-python-int', is_long(c, c.old, c['init'])),
+        return pre + [('init-is-python-int', is_long(c, c.old, c['init'])), ('init-valid', c.valid(c['init'], 16)),
                       ('no-pending-exception', c.old.err == 0)]
 
     def witness(self, c):
@@ -197,7 +238,7 @@ class convert_field_from_object(Contract):
     def pre(self, c):
         pre, _ = bitfield_pre(c, self._data(c), c['cf'])
         return pre + [('is-a-bit-field', c.field(c.old, c['cf'], 'CFieldObject', 'cf_bitshift') >= 0),
-                      ('init-is-python-int', is_long(c, c.old, c['value'])),
+                      ('init-is-python-int', is_long(c, c.old, c['value'])), ('init-valid', c.valid(c['value'], 16)),
                       ('no-pending-exception', c.old.err == 0)]
 
     def witness(self, c):
@@ -209,3 +250,265 @@ class convert_field_from_object(Contract):
 
     def post(self, c):
         return bitfield_store_post(c, self._data(c), c['cf'], c['value'])
+
+
+# ---------------------------------------------------------------------------
+# plain integer conversion (C03 core; also what full-width bit-fields delegate to)
+
+@R.add
+class _my_PyLong_AsLongLong(Contract):
+    name = '_my_PyLong_AsLongLong'
+
+    def pre(self, c):
+        return [('ob-valid', c.valid(c['ob'], 16))]
+
+    def frame(self, c):
+        return Frame(err=True, havoc_if=z3.Not(is_long(c, c.old, c['ob'])))
+
+    def witness(self, c):
+        return {'v_sat80': int_w(c['ob'])}
+
+    def post(self, c):
+        il = is_long(c, c.old, c['ob'])
+        w = int_w(c['ob'])
+        fits = z3.And(w >= wv(-(1 << 63)), w <= wv((1 << 63) - 1))
+        return [('int-fits: value, error indicator untouched',
+                 z3.Implies(z3.And(il, fits), z3.And(c.result == z3.Extract(63, 0, w), c.new.err == c.old.err))),
+                ('int-too-big: -1 with OverflowError',
+                 z3.Implies(z3.And(il, z3.Not(fits)),
+                            z3.And(c.result == BV(-1, 64), c.new.err == exc(c.ex, 'OverflowError'))))]
+
+
+@R.add
+class _my_PyLong_AsUnsignedLongLong(Contract):
+    name = '_my_PyLong_AsUnsignedLongLong'
+
+    def pre(self, c):
+        return [('ob-valid', c.valid(c['ob'], 16))]
+
+    def frame(self, c):
+        return Frame(err=True, havoc_if=z3.Not(is_long(c, c.old, c['ob'])))
+
+    def witness(self, c):
+        return {'v_sat80': int_w(c['ob']), 'strict': c['strict']}
+
+    def post(self, c):
+        il = is_long(c, c.old, c['ob'])
+        w = int_w(c['ob'])
+        strict = c['strict'] != 0
+        fits = z3.And(w >= wv(0), w <= wv((1 << 64) - 1))
+        return [('strict, 0 <= v < 2^64: value, error indicator untouched',
+                 z3.Implies(z3.And(il, strict, fits),
+                            z3.And(c.result == z3.Extract(63, 0, w), c.new.err == c.old.err))),
+                ('strict, out of range: (unsigned)-1 with OverflowError',
+                 z3.Implies(z3.And(il, strict, z3.Not(fits)),
+                            z3.And(c.result == BV(-1, 64), c.new.err == exc(c.ex, 'OverflowError')))),
+                ('not strict: v mod 2^64, no error',
+                 z3.Implies(z3.And(il, z3.Not(strict)),
+                            z3.And(c.result == int_m(c['ob']), c.new.err == c.old.err)))]
+
+
+class _ConvFrom(Contract):
+    """convert_from_object: proved for integer ctypes (incl. _Bool, enums) and Python-int sources."""
+    name = 'convert_from_object'
+
+    def pre(self, c):
+        size, flags = ctype_fields(c, c.old, c['ct'])
+        return [('ctype-wf', ctype_wf(c, c.old, c['ct'])),
+                ('init-valid', c.valid(c['init'], 16)),
+                ('no-pending-exception', c.old.err == 0),
+                ('data-valid-for-integers', z3.Implies(is_int_ctype(c, c.old, c['ct']), c.valid(c['data'], size)))]
+
+    def in_scope(self, c):
+        return z3.And(is_int_ctype(c, c.old, c['ct']), is_long(c, c.old, c['init']))
+
+    def scope(self, c):
+        return [('integer-ctype-and-python-int', self.in_scope(c))]
+
+    def frame(self, c):
+        size, flags = ctype_fields(c, c.old, c['ct'])
+        return Frame(raw=[(c['data'], size)], err=True, havoc_if=z3.Not(self.in_scope(c)))
+
+    def witness(self, c):
+        size, flags = ctype_fields(c, c.old, c['ct'])
+        return {'size': size, 'flags': flags, 'v_sat80': int_w(c['init']),
+                'unit': S.le_unit(byte_reader(c.old), c['data'], size)}
+
+    def post(self, c):
+        size, flags = ctype_fields(c, c.old, c['ct'])
+        sc = self.in_scope(c)
+        v = S.wide(int_w(c['init']), True)
+        ok = int_in_range(v, size, flags)
+        unit0 = S.le_unit(byte_reader(c.old), c['data'], size)
+        unit1 = S.le_unit(byte_reader(c.new), c['data'], size)
+        return [
+            ('accepts-iff-in-range', z3.Implies(sc, (c.result == 0) == ok)),
+            ('returns-0-or-minus-1', z3.Implies(sc, z3.Or(c.result == 0, c.result == BV(-1, 32)))),
+            ('accepted-store-writes-twos-complement-le', z3.Implies(z3.And(sc, ok), unit1 == unit_of(v, size))),
+            ('accepted-store-leaves-error-indicator', z3.Implies(z3.And(sc, ok), c.new.err == c.old.err)),
+            ('rejected-store-raises-OverflowError',
+             z3.Implies(z3.And(sc, z3.Not(ok)), c.new.err == exc(c.ex, 'OverflowError'))),
+            ('rejected-store-changes-nothing', z3.Implies(z3.And(sc, z3.Not(ok)), unit1 == unit0)),
+        ]
+
+
+R.add(_ConvFrom)
+
+
+class _ConvTo(Contract):
+    """convert_to_object: proved for integer ctypes (incl. _Bool)."""
+    name = 'convert_to_object'
+
+    def pre(self, c):
+        size, flags = ctype_fields(c, c.old, c['ct'])
+        return [('ctype-wf', ctype_wf(c, c.old, c['ct'])),
+                ('data-valid-for-integers', z3.Implies(is_int_ctype(c, c.old, c['ct']), c.valid(c['data'], size)))]
+
+    def in_scope(self, c):
+        return is_int_ctype(c, c.old, c['ct'])
+
+    def scope(self, c):
+        return [('integer-ctype', self.in_scope(c))]
+
+    def frame(self, c):
+        return Frame(err=True, havoc_if=z3.Not(self.in_scope(c)))
+
+    def witness(self, c):
+        size, flags = ctype_fields(c, c.old, c['ct'])
+        return {'size': size, 'flags': flags, 'unit': S.le_unit(byte_reader(c.old), c['data'], size)}
+
+    def post(self, c):
+        size, flags = ctype_fields(c, c.old, c['ct'])
+        sc = self.in_scope(c)
+        unit = S.le_unit(byte_reader(c.old), c['data'], size)
+        sgn = flag(flags, CT_PRIMITIVE_SIGNED)
+        isb = flag(flags, CT_IS_BOOL)
+        val = z3.If(sgn, S.wide(S.signed_of_unit(unit, size), True), S.wide(unit, False))
+        r = c.result
+        true_, false_ = c.ex.global_addr('_Py_TrueStruct'), c.ex.global_addr('_Py_FalseStruct')
+        return [
+            ('integer: returns an int object with the stored value',
+             z3.Implies(z3.And(sc, z3.Not(isb)),
+                        z3.And(r != 0, is_long(c, c.new, r), S.wide(int_w(r), True) == val,
+                               c.new.err == c.old.err))),
+            ('_Bool 0/1: returns False/True',
+             z3.Implies(z3.And(sc, isb, z3.ULE(unit, 1)),
+                        z3.And(r == z3.If(unit == 1, true_, false_), c.new.err == c.old.err))),
+            ('_Bool other byte: ValueError',
+             z3.Implies(z3.And(sc, isb, z3.UGT(unit, 1)),
+                        z3.And(r == 0, c.new.err == exc(c.ex, 'ValueError')))),
+        ]
+
+
+R.add(_ConvTo)
+
+
+# ---------------------------------------------------------------------------
+# API-mode converters exported to generated modules (C03)
+
+def _mk_to_c(bits, signed):
+    nm = '_cffi_to_c_%s%d' % ('i' if signed else 'u', bits)
+    lo = -(1 << (bits - 1)) if signed else 0
+    hi = (1 << (bits - 1)) - 1 if signed else (1 << bits) - 1
+
+    class K(Contract):
+        name = nm
+
+        def pre(self, c):
+            return [('obj-valid', c.valid(c['obj'], 16)), ('no-pending-exception', c.old.err == 0)]
+
+        def frame(self, c):
+            return Frame(err=True, havoc_if=z3.Not(is_long(c, c.old, c['obj'])))
+
+        def witness(self, c):
+            return {'v_sat80': int_w(c['obj'])}
+
+        def post(self, c):
+            il = is_long(c, c.old, c['obj'])
+            w = int_w(c['obj'])
+            ok = z3.And(w >= wv(lo), w <= wv(hi))
+            rb = c.result.size()
+            low = z3.Extract(min(rb, 64) - 1, 0, w)
+            return [('in-range: returns the value, no error',
+                     z3.Implies(z3.And(il, ok), z3.And(c.result == low, c.new.err == 0))),
+                    ('out-of-range: OverflowError and the error value (T)-1',
+                     z3.Implies(z3.And(il, z3.Not(ok)),
+                                z3.And(c.new.err == exc(c.ex, 'OverflowError'), c.result == BV(-1, rb))))]
+    K.__name__ = nm
+    R.add(K)
+    return nm
+
+
+TO_C_FUNCS = [_mk_to_c(b, s) for s in (True, False) for b in (8, 16, 32, 64)]
+
+
+@R.add
+class _cffi_to_c__Bool(Contract):
+    name = '_cffi_to_c__Bool'
+
+    def pre(self, c):
+        return [('obj-valid', c.valid(c['obj'], 16)), ('no-pending-exception', c.old.err == 0)]
+
+    def frame(self, c):
+        return Frame(err=True, havoc_if=z3.Not(is_long(c, c.old, c['obj'])))
+
+    def witness(self, c):
+        return {'v_sat80': int_w(c['obj'])}
+
+    def post(self, c):
+        il = is_long(c, c.old, c['obj'])
+        w = int_w(c['obj'])
+        ok = z3.Or(w == wv(0), w == wv(1))
+        return [('0 or 1: returned, no error',
+                 z3.Implies(z3.And(il, ok), z3.And(c.result == z3.Extract(7, 0, w), c.new.err == 0))),
+                ('anything else: OverflowError', z3.Implies(z3.And(il, z3.Not(ok)),
+                                                            c.new.err == exc(c.ex, 'OverflowError')))]
+
+
+@R.add
+class convert_from_object_fficallback(Contract):
+    """callback result widening: integer results narrower than ffi_arg fill a whole 8-byte ffi_arg"""
+    name = 'convert_from_object_fficallback'
+
+    def _w(self, c):
+        size, flags = ctype_fields(c, c.old, c['ctype'])
+        widen = z3.And(c['encode_result_for_libffi'] != 0, size < 8)
+        return size, flags, widen
+
+    def pre(self, c):
+        size, flags, widen = self._w(c)
+        return [('ctype-wf', ctype_wf(c, c.old, c['ctype'])), ('pyobj-valid', c.valid(c['pyobj'], 16)),
+                ('no-pending-exception', c.old.err == 0),
+                ('result-buffer-valid', z3.Implies(is_int_ctype(c, c.old, c['ctype']),
+                                                   c.valid(c['result'], z3.If(widen, BV(8, 64), size))))]
+
+    def in_scope(self, c):
+        return z3.And(is_int_ctype(c, c.old, c['ctype']), is_long(c, c.old, c['pyobj']))
+
+    def scope(self, c):
+        return [('integer-result-type-and-python-int', self.in_scope(c))]
+
+    def frame(self, c):
+        size, flags, widen = self._w(c)
+        return Frame(raw=[(c['result'], z3.If(widen, BV(8, 64), size))], err=True, havoc_if=z3.Not(self.in_scope(c)))
+
+    def witness(self, c):
+        size, flags, widen = self._w(c)
+        return {'size': size, 'flags': flags, 'v_sat80': int_w(c['pyobj']), 'encode': c['encode_result_for_libffi']}
+
+    def post(self, c):
+        size, flags, widen = self._w(c)
+        sc = self.in_scope(c)
+        v = S.wide(int_w(c['pyobj']), True)
+        ok = int_in_range(v, size, flags)
+        full = c.raw(c.new, c['result'], 8)
+        unit1 = S.le_unit(byte_reader(c.new), c['result'], size)
+        return [
+            ('accepts-iff-in-range', z3.Implies(sc, (c.result == 0) == ok)),
+            ('widened: the whole ffi_arg holds v (sign- or zero-extended)',
+             z3.Implies(z3.And(sc, ok, widen), full == z3.Extract(63, 0, v))),
+            ('not widened: size bytes hold v', z3.Implies(z3.And(sc, ok, z3.Not(widen)), unit1 == unit_of(v, size))),
+            ('rejected: OverflowError', z3.Implies(z3.And(sc, z3.Not(ok)),
+                                                   z3.And(c.result == BV(-1, 32),
+                                                          c.new.err == exc(c.ex, 'OverflowError')))),
+        ]
